@@ -8,9 +8,9 @@ package interp
 // the variable may still take under the single-variable literals already on the
 // path condition. "No value satisfies it" / "every value satisfies it" are sound
 // verdicts whatever else is on the path condition (the domain over-approximates
-// the feasible set); "both feasible" is exact only while every literal on the
-// path condition mentions one variable (then the feasible set is the product of
-// the domains), otherwise the SMT solver decides. A sample of the domain
+// the feasible set); "both feasible" is exact as long as the variable occurs in
+// no literal that mentions another variable (the feasible set is then the product
+// of that variable's domain with the rest), otherwise the SMT solver decides. A sample of the domain
 // verdicts is audited against the solver (Config.DomainAudit).
 
 import (
@@ -108,10 +108,10 @@ func (i *interpreter) domAssert(lit *smt.Term) {
 	p := i.p
 	v := i.singleVar(lit)
 	if v == nil {
-		if m, ok := i.varMemo[lit.ID]; !ok || m != nil {
-			p.multi = true
-		} else if lit.Op != smt.OpConst {
-			p.multi = true
+		// a literal over several variables (or a wider one) entangles them: their
+		// domains are no longer exact projections of the feasible set
+		for _, x := range i.termVars(lit) {
+			p.entangled[x] = true
 		}
 		return
 	}
@@ -150,8 +150,30 @@ func (i *interpreter) domDecide(c *smt.Term) int {
 		return 2
 	case nF == 0:
 		return 1
-	case !i.p.multi:
+	case !i.p.entangled[v]:
 		return 3
 	}
 	return 0
+}
+
+// termVars lists the variables of t.
+func (i *interpreter) termVars(t *smt.Term) []*smt.Term {
+	var vs []*smt.Term
+	seen := map[int]bool{}
+	var walk func(t *smt.Term)
+	walk = func(t *smt.Term) {
+		if seen[t.ID] {
+			return
+		}
+		seen[t.ID] = true
+		if t.Op == smt.OpVar {
+			vs = append(vs, t)
+			return
+		}
+		for _, a := range t.Args {
+			walk(a)
+		}
+	}
+	walk(t)
+	return vs
 }
